@@ -1567,14 +1567,14 @@ fn aggregate_scalar_simd(
         }
         AggregateFunction::Min => {
             if let Some(a) = input.as_any().downcast_ref::<Int64Array>() {
-                let min = a.iter().flatten().min().unwrap_or(i64::MAX);
+                // No non-NULL input (empty or all-NULL): MIN is NULL.
+                let min = a.iter().flatten().min();
                 Arc::new(Int64Array::from(vec![min]))
             } else if let Some(a) = input.as_any().downcast_ref::<Float64Array>() {
                 let min = a
                     .iter()
                     .flatten()
-                    .min_by(|a, b| a.partial_cmp(b).unwrap())
-                    .unwrap_or(f64::MAX);
+                    .min_by(|a, b| a.partial_cmp(b).unwrap());
                 Arc::new(Float64Array::from(vec![min]))
             } else if let Some(a) = input.as_any().downcast_ref::<StringArray>() {
                 let min = a.iter().flatten().min();
@@ -1583,7 +1583,7 @@ fn aggregate_scalar_simd(
                     None => Arc::new(StringArray::from(vec![Option::<&str>::None])),
                 }
             } else if let Some(a) = input.as_any().downcast_ref::<Date32Array>() {
-                let min = a.iter().flatten().min().unwrap_or(i32::MAX);
+                let min = a.iter().flatten().min();
                 Arc::new(Date32Array::from(vec![min]))
             } else {
                 return Err(QueryError::NotImplemented(format!(
@@ -1594,14 +1594,14 @@ fn aggregate_scalar_simd(
         }
         AggregateFunction::Max => {
             if let Some(a) = input.as_any().downcast_ref::<Int64Array>() {
-                let max = a.iter().flatten().max().unwrap_or(i64::MIN);
+                // No non-NULL input (empty or all-NULL): MAX is NULL.
+                let max = a.iter().flatten().max();
                 Arc::new(Int64Array::from(vec![max]))
             } else if let Some(a) = input.as_any().downcast_ref::<Float64Array>() {
                 let max = a
                     .iter()
                     .flatten()
-                    .max_by(|a, b| a.partial_cmp(b).unwrap())
-                    .unwrap_or(f64::MIN);
+                    .max_by(|a, b| a.partial_cmp(b).unwrap());
                 Arc::new(Float64Array::from(vec![max]))
             } else if let Some(a) = input.as_any().downcast_ref::<StringArray>() {
                 let max = a.iter().flatten().max();
@@ -1610,7 +1610,7 @@ fn aggregate_scalar_simd(
                     None => Arc::new(StringArray::from(vec![Option::<&str>::None])),
                 }
             } else if let Some(a) = input.as_any().downcast_ref::<Date32Array>() {
-                let max = a.iter().flatten().max().unwrap_or(i32::MIN);
+                let max = a.iter().flatten().max();
                 Arc::new(Date32Array::from(vec![max]))
             } else {
                 return Err(QueryError::NotImplemented(format!(
